@@ -211,7 +211,11 @@ pub fn run(out: &mut Out, thorough: bool, seed: u64) {
     crate::c17::run(out, thorough, seed);
     crate::c12::run(out, thorough, seed);
     crate::c18::run(out, thorough, seed);
+    // the compiler takes typed policy VALUES (enum-built odds of 0, uncompressed keys as unspendable
+    // key …): not one of C11's input channels; its panics on such values are C08 observations
+    out.sweep_tokens = false;
     crate::c08::run(out, false, seed);
+    out.sweep_tokens = true;
     out.sweep = false;
     let swept = out.swept;
     out.note("swept_calls", swept.to_string());
